@@ -44,7 +44,10 @@ Import ListNotations.
             closeNetConn after a write error; setState(closed); closeAllTimers
    td_tfpc  T1 failure callback: not fired, fired (wants a.lock), in completeHandshake (lock held), done
    td_cwpc, td_rdpc, td_wrpc, td_acpc, td_shpc   the callers blocked in Client/Server, ReadSCTP,
-            blocking WriteSCTP, AcceptStream, Shutdown and what they returned
+            blocking WriteSCTP, AcceptStream, Shutdown and what they returned; the connect call that received
+            a handshake error runs assoc.Close() (TdCwErrCl0-3, TdCwErrWait) before it returns the error
+            (TdCwHsErr); Shutdown, woken by closeWriteLoopCh (TdShWoken), reads shutdownCompleted under the
+            lock: nil (TdShNil) or ErrShutdownIncomplete (TdShErr)
    td_ccpc  Close(): not called, the four steps of a.close(), waiting for readLoopCloseCh, returned
    td_abpc  Abort(): set flag (lock), awake, wait abortSentCh|200ms, SetReadDeadline(now),
             wait readLoopCloseCh, wait abortSentCh|200ms, returned
@@ -55,7 +58,7 @@ Import ListNotations.
    td_connc (netConn closed by this side) td_rfail/td_wfail (transport fails reads/writes) td_rdl (read
    deadline passed) td_cwl/td_cwlo (closeWriteLoopCh closed / its Once) td_rlc (readLoopCloseCh) td_acc
    (acceptCh) td_abs/td_abso (abortSentCh / its Once) td_awake (awakeWriteLoopCh holds a token) td_lk (a.lock
-   held) td_wsa (willSendAbort) td_tcl (closeAllTimers done) td_panic (a closed channel was closed again)
+   held) td_wsa (willSendAbort) td_tcl (closeAllTimers done) td_sdc (shutdownCompleted) td_panic (a closed channel was closed again)
    td_injd (the environment's injection happened)
    ------------------------------------------------------------------------------------------ *)
 Inductive td_phase := TdPhHs | TdPhEst | TdPhSd.
@@ -65,11 +68,11 @@ Inductive td_cl := TdCl0 | TdCl1 | TdCl2 | TdCl3.
 Inductive td_rlpc := TdRlRead | TdRlHs | TdRlAb0 | TdRlAb1 | TdRlAb2 | TdRlAb3 | TdRlSc0 | TdRlSc1 | TdRlSc2 | TdRlSc3 | TdRlX1 | TdRlX2 | TdRlX3 | TdRlX4 | TdRlX5 | TdRlX6 | TdRlX7 | TdRlDone.
 Inductive td_wlpc := TdWlGather | TdWlWrAbort | TdWlWr1 | TdWlWr2 | TdWlWrFin | TdWlCl0 | TdWlCl1 | TdWlCl2 | TdWlCl3 | TdWlSelect | TdWlChk | TdWlFailConn | TdWlExit1 | TdWlExit2 | TdWlDone.
 Inductive td_tfpc := TdTfIdle | TdTfFired | TdTfBlocked | TdTfDone.
-Inductive td_cwpc := TdCwNone | TdCwWait | TdCwOk | TdCwHsErr | TdCwClosed.
+Inductive td_cwpc := TdCwNone | TdCwWait | TdCwOk | TdCwErrCl0 | TdCwErrCl1 | TdCwErrCl2 | TdCwErrCl3 | TdCwErrWait | TdCwHsErr | TdCwClosed.
 Inductive td_rdpc := TdRdNone | TdRdParked | TdRdCheck | TdRdRetRead | TdRdRetAb0 | TdRdRetAb1 | TdRdRetData.
 Inductive td_wrpc := TdWrNone | TdWrBlocked | TdWrWoken | TdWrErr | TdWrOk.
 Inductive td_acpc := TdAcNone | TdAcWait | TdAcEof | TdAcStream.
-Inductive td_shpc := TdShNone | TdShWait | TdShNil.
+Inductive td_shpc := TdShNone | TdShWait | TdShWoken | TdShNil | TdShErr.
 Inductive td_ccpc := TdCcNone | TdCcCl0 | TdCcCl1 | TdCcCl2 | TdCcCl3 | TdCcWait | TdCcRet.
 Inductive td_abpc := TdAbNone | TdAbFlag | TdAbAwake | TdAbWait1 | TdAbRdl | TdAbWaitRl | TdAbWait2 | TdAbRet.
 Inductive td_cnt := TdCnt0 | TdCnt1 | TdCnt2.
@@ -136,11 +139,16 @@ Definition td_tfpc_enc (x : td_tfpc) (p : positive) : positive :=
   end.
 Definition td_cwpc_enc (x : td_cwpc) (p : positive) : positive :=
   match x with
-  | TdCwNone => xO (xO (xO p))
-  | TdCwWait => xO (xO (xI p))
-  | TdCwOk => xO (xI (xO p))
-  | TdCwHsErr => xO (xI (xI p))
-  | TdCwClosed => xI (xO (xO p))
+  | TdCwNone => xO (xO (xO (xO p)))
+  | TdCwWait => xO (xO (xO (xI p)))
+  | TdCwOk => xO (xO (xI (xO p)))
+  | TdCwErrCl0 => xO (xO (xI (xI p)))
+  | TdCwErrCl1 => xO (xI (xO (xO p)))
+  | TdCwErrCl2 => xO (xI (xO (xI p)))
+  | TdCwErrCl3 => xO (xI (xI (xO p)))
+  | TdCwErrWait => xO (xI (xI (xI p)))
+  | TdCwHsErr => xI (xO (xO (xO p)))
+  | TdCwClosed => xI (xO (xO (xI p)))
   end.
 Definition td_rdpc_enc (x : td_rdpc) (p : positive) : positive :=
   match x with
@@ -169,9 +177,11 @@ Definition td_acpc_enc (x : td_acpc) (p : positive) : positive :=
   end.
 Definition td_shpc_enc (x : td_shpc) (p : positive) : positive :=
   match x with
-  | TdShNone => xO (xO p)
-  | TdShWait => xO (xI p)
-  | TdShNil => xI (xO p)
+  | TdShNone => xO (xO (xO p))
+  | TdShWait => xO (xO (xI p))
+  | TdShWoken => xO (xI (xO p))
+  | TdShNil => xO (xI (xI p))
+  | TdShErr => xI (xO (xO p))
   end.
 Definition td_ccpc_enc (x : td_ccpc) (p : positive) : positive :=
   match x with
@@ -233,76 +243,79 @@ Record td_state := mkTd {
   td_lk : bool;
   td_wsa : bool;
   td_tcl : bool;
+  td_sdc : bool;
   td_panic : bool;
   td_injd : bool
 }.
 
 Definition td_set_rl (v : td_rlpc) (s : td_state) : td_state :=
-  mkTd v (td_wl s) (td_tl s) (td_tf s) (td_cw s) (td_rd s) (td_wr s) (td_ac s) (td_sh s) (td_c1 s) (td_c2 s) (td_ab s) (td_st s) (td_cerr s) (td_rerr s) (td_pab s) (td_wac s) (td_connc s) (td_rfail s) (td_wfail s) (td_rdl s) (td_cwl s) (td_cwlo s) (td_rlc s) (td_acc s) (td_abs s) (td_abso s) (td_awake s) (td_lk s) (td_wsa s) (td_tcl s) (td_panic s) (td_injd s).
+  mkTd v (td_wl s) (td_tl s) (td_tf s) (td_cw s) (td_rd s) (td_wr s) (td_ac s) (td_sh s) (td_c1 s) (td_c2 s) (td_ab s) (td_st s) (td_cerr s) (td_rerr s) (td_pab s) (td_wac s) (td_connc s) (td_rfail s) (td_wfail s) (td_rdl s) (td_cwl s) (td_cwlo s) (td_rlc s) (td_acc s) (td_abs s) (td_abso s) (td_awake s) (td_lk s) (td_wsa s) (td_tcl s) (td_sdc s) (td_panic s) (td_injd s).
 Definition td_set_wl (v : td_wlpc) (s : td_state) : td_state :=
-  mkTd (td_rl s) v (td_tl s) (td_tf s) (td_cw s) (td_rd s) (td_wr s) (td_ac s) (td_sh s) (td_c1 s) (td_c2 s) (td_ab s) (td_st s) (td_cerr s) (td_rerr s) (td_pab s) (td_wac s) (td_connc s) (td_rfail s) (td_wfail s) (td_rdl s) (td_cwl s) (td_cwlo s) (td_rlc s) (td_acc s) (td_abs s) (td_abso s) (td_awake s) (td_lk s) (td_wsa s) (td_tcl s) (td_panic s) (td_injd s).
+  mkTd (td_rl s) v (td_tl s) (td_tf s) (td_cw s) (td_rd s) (td_wr s) (td_ac s) (td_sh s) (td_c1 s) (td_c2 s) (td_ab s) (td_st s) (td_cerr s) (td_rerr s) (td_pab s) (td_wac s) (td_connc s) (td_rfail s) (td_wfail s) (td_rdl s) (td_cwl s) (td_cwlo s) (td_rlc s) (td_acc s) (td_abs s) (td_abso s) (td_awake s) (td_lk s) (td_wsa s) (td_tcl s) (td_sdc s) (td_panic s) (td_injd s).
 Definition td_set_tl (v : bool) (s : td_state) : td_state :=
-  mkTd (td_rl s) (td_wl s) v (td_tf s) (td_cw s) (td_rd s) (td_wr s) (td_ac s) (td_sh s) (td_c1 s) (td_c2 s) (td_ab s) (td_st s) (td_cerr s) (td_rerr s) (td_pab s) (td_wac s) (td_connc s) (td_rfail s) (td_wfail s) (td_rdl s) (td_cwl s) (td_cwlo s) (td_rlc s) (td_acc s) (td_abs s) (td_abso s) (td_awake s) (td_lk s) (td_wsa s) (td_tcl s) (td_panic s) (td_injd s).
+  mkTd (td_rl s) (td_wl s) v (td_tf s) (td_cw s) (td_rd s) (td_wr s) (td_ac s) (td_sh s) (td_c1 s) (td_c2 s) (td_ab s) (td_st s) (td_cerr s) (td_rerr s) (td_pab s) (td_wac s) (td_connc s) (td_rfail s) (td_wfail s) (td_rdl s) (td_cwl s) (td_cwlo s) (td_rlc s) (td_acc s) (td_abs s) (td_abso s) (td_awake s) (td_lk s) (td_wsa s) (td_tcl s) (td_sdc s) (td_panic s) (td_injd s).
 Definition td_set_tf (v : td_tfpc) (s : td_state) : td_state :=
-  mkTd (td_rl s) (td_wl s) (td_tl s) v (td_cw s) (td_rd s) (td_wr s) (td_ac s) (td_sh s) (td_c1 s) (td_c2 s) (td_ab s) (td_st s) (td_cerr s) (td_rerr s) (td_pab s) (td_wac s) (td_connc s) (td_rfail s) (td_wfail s) (td_rdl s) (td_cwl s) (td_cwlo s) (td_rlc s) (td_acc s) (td_abs s) (td_abso s) (td_awake s) (td_lk s) (td_wsa s) (td_tcl s) (td_panic s) (td_injd s).
+  mkTd (td_rl s) (td_wl s) (td_tl s) v (td_cw s) (td_rd s) (td_wr s) (td_ac s) (td_sh s) (td_c1 s) (td_c2 s) (td_ab s) (td_st s) (td_cerr s) (td_rerr s) (td_pab s) (td_wac s) (td_connc s) (td_rfail s) (td_wfail s) (td_rdl s) (td_cwl s) (td_cwlo s) (td_rlc s) (td_acc s) (td_abs s) (td_abso s) (td_awake s) (td_lk s) (td_wsa s) (td_tcl s) (td_sdc s) (td_panic s) (td_injd s).
 Definition td_set_cw (v : td_cwpc) (s : td_state) : td_state :=
-  mkTd (td_rl s) (td_wl s) (td_tl s) (td_tf s) v (td_rd s) (td_wr s) (td_ac s) (td_sh s) (td_c1 s) (td_c2 s) (td_ab s) (td_st s) (td_cerr s) (td_rerr s) (td_pab s) (td_wac s) (td_connc s) (td_rfail s) (td_wfail s) (td_rdl s) (td_cwl s) (td_cwlo s) (td_rlc s) (td_acc s) (td_abs s) (td_abso s) (td_awake s) (td_lk s) (td_wsa s) (td_tcl s) (td_panic s) (td_injd s).
+  mkTd (td_rl s) (td_wl s) (td_tl s) (td_tf s) v (td_rd s) (td_wr s) (td_ac s) (td_sh s) (td_c1 s) (td_c2 s) (td_ab s) (td_st s) (td_cerr s) (td_rerr s) (td_pab s) (td_wac s) (td_connc s) (td_rfail s) (td_wfail s) (td_rdl s) (td_cwl s) (td_cwlo s) (td_rlc s) (td_acc s) (td_abs s) (td_abso s) (td_awake s) (td_lk s) (td_wsa s) (td_tcl s) (td_sdc s) (td_panic s) (td_injd s).
 Definition td_set_rd (v : td_rdpc) (s : td_state) : td_state :=
-  mkTd (td_rl s) (td_wl s) (td_tl s) (td_tf s) (td_cw s) v (td_wr s) (td_ac s) (td_sh s) (td_c1 s) (td_c2 s) (td_ab s) (td_st s) (td_cerr s) (td_rerr s) (td_pab s) (td_wac s) (td_connc s) (td_rfail s) (td_wfail s) (td_rdl s) (td_cwl s) (td_cwlo s) (td_rlc s) (td_acc s) (td_abs s) (td_abso s) (td_awake s) (td_lk s) (td_wsa s) (td_tcl s) (td_panic s) (td_injd s).
+  mkTd (td_rl s) (td_wl s) (td_tl s) (td_tf s) (td_cw s) v (td_wr s) (td_ac s) (td_sh s) (td_c1 s) (td_c2 s) (td_ab s) (td_st s) (td_cerr s) (td_rerr s) (td_pab s) (td_wac s) (td_connc s) (td_rfail s) (td_wfail s) (td_rdl s) (td_cwl s) (td_cwlo s) (td_rlc s) (td_acc s) (td_abs s) (td_abso s) (td_awake s) (td_lk s) (td_wsa s) (td_tcl s) (td_sdc s) (td_panic s) (td_injd s).
 Definition td_set_wr (v : td_wrpc) (s : td_state) : td_state :=
-  mkTd (td_rl s) (td_wl s) (td_tl s) (td_tf s) (td_cw s) (td_rd s) v (td_ac s) (td_sh s) (td_c1 s) (td_c2 s) (td_ab s) (td_st s) (td_cerr s) (td_rerr s) (td_pab s) (td_wac s) (td_connc s) (td_rfail s) (td_wfail s) (td_rdl s) (td_cwl s) (td_cwlo s) (td_rlc s) (td_acc s) (td_abs s) (td_abso s) (td_awake s) (td_lk s) (td_wsa s) (td_tcl s) (td_panic s) (td_injd s).
+  mkTd (td_rl s) (td_wl s) (td_tl s) (td_tf s) (td_cw s) (td_rd s) v (td_ac s) (td_sh s) (td_c1 s) (td_c2 s) (td_ab s) (td_st s) (td_cerr s) (td_rerr s) (td_pab s) (td_wac s) (td_connc s) (td_rfail s) (td_wfail s) (td_rdl s) (td_cwl s) (td_cwlo s) (td_rlc s) (td_acc s) (td_abs s) (td_abso s) (td_awake s) (td_lk s) (td_wsa s) (td_tcl s) (td_sdc s) (td_panic s) (td_injd s).
 Definition td_set_ac (v : td_acpc) (s : td_state) : td_state :=
-  mkTd (td_rl s) (td_wl s) (td_tl s) (td_tf s) (td_cw s) (td_rd s) (td_wr s) v (td_sh s) (td_c1 s) (td_c2 s) (td_ab s) (td_st s) (td_cerr s) (td_rerr s) (td_pab s) (td_wac s) (td_connc s) (td_rfail s) (td_wfail s) (td_rdl s) (td_cwl s) (td_cwlo s) (td_rlc s) (td_acc s) (td_abs s) (td_abso s) (td_awake s) (td_lk s) (td_wsa s) (td_tcl s) (td_panic s) (td_injd s).
+  mkTd (td_rl s) (td_wl s) (td_tl s) (td_tf s) (td_cw s) (td_rd s) (td_wr s) v (td_sh s) (td_c1 s) (td_c2 s) (td_ab s) (td_st s) (td_cerr s) (td_rerr s) (td_pab s) (td_wac s) (td_connc s) (td_rfail s) (td_wfail s) (td_rdl s) (td_cwl s) (td_cwlo s) (td_rlc s) (td_acc s) (td_abs s) (td_abso s) (td_awake s) (td_lk s) (td_wsa s) (td_tcl s) (td_sdc s) (td_panic s) (td_injd s).
 Definition td_set_sh (v : td_shpc) (s : td_state) : td_state :=
-  mkTd (td_rl s) (td_wl s) (td_tl s) (td_tf s) (td_cw s) (td_rd s) (td_wr s) (td_ac s) v (td_c1 s) (td_c2 s) (td_ab s) (td_st s) (td_cerr s) (td_rerr s) (td_pab s) (td_wac s) (td_connc s) (td_rfail s) (td_wfail s) (td_rdl s) (td_cwl s) (td_cwlo s) (td_rlc s) (td_acc s) (td_abs s) (td_abso s) (td_awake s) (td_lk s) (td_wsa s) (td_tcl s) (td_panic s) (td_injd s).
+  mkTd (td_rl s) (td_wl s) (td_tl s) (td_tf s) (td_cw s) (td_rd s) (td_wr s) (td_ac s) v (td_c1 s) (td_c2 s) (td_ab s) (td_st s) (td_cerr s) (td_rerr s) (td_pab s) (td_wac s) (td_connc s) (td_rfail s) (td_wfail s) (td_rdl s) (td_cwl s) (td_cwlo s) (td_rlc s) (td_acc s) (td_abs s) (td_abso s) (td_awake s) (td_lk s) (td_wsa s) (td_tcl s) (td_sdc s) (td_panic s) (td_injd s).
 Definition td_set_c1 (v : td_ccpc) (s : td_state) : td_state :=
-  mkTd (td_rl s) (td_wl s) (td_tl s) (td_tf s) (td_cw s) (td_rd s) (td_wr s) (td_ac s) (td_sh s) v (td_c2 s) (td_ab s) (td_st s) (td_cerr s) (td_rerr s) (td_pab s) (td_wac s) (td_connc s) (td_rfail s) (td_wfail s) (td_rdl s) (td_cwl s) (td_cwlo s) (td_rlc s) (td_acc s) (td_abs s) (td_abso s) (td_awake s) (td_lk s) (td_wsa s) (td_tcl s) (td_panic s) (td_injd s).
+  mkTd (td_rl s) (td_wl s) (td_tl s) (td_tf s) (td_cw s) (td_rd s) (td_wr s) (td_ac s) (td_sh s) v (td_c2 s) (td_ab s) (td_st s) (td_cerr s) (td_rerr s) (td_pab s) (td_wac s) (td_connc s) (td_rfail s) (td_wfail s) (td_rdl s) (td_cwl s) (td_cwlo s) (td_rlc s) (td_acc s) (td_abs s) (td_abso s) (td_awake s) (td_lk s) (td_wsa s) (td_tcl s) (td_sdc s) (td_panic s) (td_injd s).
 Definition td_set_c2 (v : td_ccpc) (s : td_state) : td_state :=
-  mkTd (td_rl s) (td_wl s) (td_tl s) (td_tf s) (td_cw s) (td_rd s) (td_wr s) (td_ac s) (td_sh s) (td_c1 s) v (td_ab s) (td_st s) (td_cerr s) (td_rerr s) (td_pab s) (td_wac s) (td_connc s) (td_rfail s) (td_wfail s) (td_rdl s) (td_cwl s) (td_cwlo s) (td_rlc s) (td_acc s) (td_abs s) (td_abso s) (td_awake s) (td_lk s) (td_wsa s) (td_tcl s) (td_panic s) (td_injd s).
+  mkTd (td_rl s) (td_wl s) (td_tl s) (td_tf s) (td_cw s) (td_rd s) (td_wr s) (td_ac s) (td_sh s) (td_c1 s) v (td_ab s) (td_st s) (td_cerr s) (td_rerr s) (td_pab s) (td_wac s) (td_connc s) (td_rfail s) (td_wfail s) (td_rdl s) (td_cwl s) (td_cwlo s) (td_rlc s) (td_acc s) (td_abs s) (td_abso s) (td_awake s) (td_lk s) (td_wsa s) (td_tcl s) (td_sdc s) (td_panic s) (td_injd s).
 Definition td_set_ab (v : td_abpc) (s : td_state) : td_state :=
-  mkTd (td_rl s) (td_wl s) (td_tl s) (td_tf s) (td_cw s) (td_rd s) (td_wr s) (td_ac s) (td_sh s) (td_c1 s) (td_c2 s) v (td_st s) (td_cerr s) (td_rerr s) (td_pab s) (td_wac s) (td_connc s) (td_rfail s) (td_wfail s) (td_rdl s) (td_cwl s) (td_cwlo s) (td_rlc s) (td_acc s) (td_abs s) (td_abso s) (td_awake s) (td_lk s) (td_wsa s) (td_tcl s) (td_panic s) (td_injd s).
+  mkTd (td_rl s) (td_wl s) (td_tl s) (td_tf s) (td_cw s) (td_rd s) (td_wr s) (td_ac s) (td_sh s) (td_c1 s) (td_c2 s) v (td_st s) (td_cerr s) (td_rerr s) (td_pab s) (td_wac s) (td_connc s) (td_rfail s) (td_wfail s) (td_rdl s) (td_cwl s) (td_cwlo s) (td_rlc s) (td_acc s) (td_abs s) (td_abso s) (td_awake s) (td_lk s) (td_wsa s) (td_tcl s) (td_sdc s) (td_panic s) (td_injd s).
 Definition td_set_st (v : td_ast) (s : td_state) : td_state :=
-  mkTd (td_rl s) (td_wl s) (td_tl s) (td_tf s) (td_cw s) (td_rd s) (td_wr s) (td_ac s) (td_sh s) (td_c1 s) (td_c2 s) (td_ab s) v (td_cerr s) (td_rerr s) (td_pab s) (td_wac s) (td_connc s) (td_rfail s) (td_wfail s) (td_rdl s) (td_cwl s) (td_cwlo s) (td_rlc s) (td_acc s) (td_abs s) (td_abso s) (td_awake s) (td_lk s) (td_wsa s) (td_tcl s) (td_panic s) (td_injd s).
+  mkTd (td_rl s) (td_wl s) (td_tl s) (td_tf s) (td_cw s) (td_rd s) (td_wr s) (td_ac s) (td_sh s) (td_c1 s) (td_c2 s) (td_ab s) v (td_cerr s) (td_rerr s) (td_pab s) (td_wac s) (td_connc s) (td_rfail s) (td_wfail s) (td_rdl s) (td_cwl s) (td_cwlo s) (td_rlc s) (td_acc s) (td_abs s) (td_abso s) (td_awake s) (td_lk s) (td_wsa s) (td_tcl s) (td_sdc s) (td_panic s) (td_injd s).
 Definition td_set_cerr (v : td_err) (s : td_state) : td_state :=
-  mkTd (td_rl s) (td_wl s) (td_tl s) (td_tf s) (td_cw s) (td_rd s) (td_wr s) (td_ac s) (td_sh s) (td_c1 s) (td_c2 s) (td_ab s) (td_st s) v (td_rerr s) (td_pab s) (td_wac s) (td_connc s) (td_rfail s) (td_wfail s) (td_rdl s) (td_cwl s) (td_cwlo s) (td_rlc s) (td_acc s) (td_abs s) (td_abso s) (td_awake s) (td_lk s) (td_wsa s) (td_tcl s) (td_panic s) (td_injd s).
+  mkTd (td_rl s) (td_wl s) (td_tl s) (td_tf s) (td_cw s) (td_rd s) (td_wr s) (td_ac s) (td_sh s) (td_c1 s) (td_c2 s) (td_ab s) (td_st s) v (td_rerr s) (td_pab s) (td_wac s) (td_connc s) (td_rfail s) (td_wfail s) (td_rdl s) (td_cwl s) (td_cwlo s) (td_rlc s) (td_acc s) (td_abs s) (td_abso s) (td_awake s) (td_lk s) (td_wsa s) (td_tcl s) (td_sdc s) (td_panic s) (td_injd s).
 Definition td_set_rerr (v : td_err) (s : td_state) : td_state :=
-  mkTd (td_rl s) (td_wl s) (td_tl s) (td_tf s) (td_cw s) (td_rd s) (td_wr s) (td_ac s) (td_sh s) (td_c1 s) (td_c2 s) (td_ab s) (td_st s) (td_cerr s) v (td_pab s) (td_wac s) (td_connc s) (td_rfail s) (td_wfail s) (td_rdl s) (td_cwl s) (td_cwlo s) (td_rlc s) (td_acc s) (td_abs s) (td_abso s) (td_awake s) (td_lk s) (td_wsa s) (td_tcl s) (td_panic s) (td_injd s).
+  mkTd (td_rl s) (td_wl s) (td_tl s) (td_tf s) (td_cw s) (td_rd s) (td_wr s) (td_ac s) (td_sh s) (td_c1 s) (td_c2 s) (td_ab s) (td_st s) (td_cerr s) v (td_pab s) (td_wac s) (td_connc s) (td_rfail s) (td_wfail s) (td_rdl s) (td_cwl s) (td_cwlo s) (td_rlc s) (td_acc s) (td_abs s) (td_abso s) (td_awake s) (td_lk s) (td_wsa s) (td_tcl s) (td_sdc s) (td_panic s) (td_injd s).
 Definition td_set_pab (v : td_err) (s : td_state) : td_state :=
-  mkTd (td_rl s) (td_wl s) (td_tl s) (td_tf s) (td_cw s) (td_rd s) (td_wr s) (td_ac s) (td_sh s) (td_c1 s) (td_c2 s) (td_ab s) (td_st s) (td_cerr s) (td_rerr s) v (td_wac s) (td_connc s) (td_rfail s) (td_wfail s) (td_rdl s) (td_cwl s) (td_cwlo s) (td_rlc s) (td_acc s) (td_abs s) (td_abso s) (td_awake s) (td_lk s) (td_wsa s) (td_tcl s) (td_panic s) (td_injd s).
+  mkTd (td_rl s) (td_wl s) (td_tl s) (td_tf s) (td_cw s) (td_rd s) (td_wr s) (td_ac s) (td_sh s) (td_c1 s) (td_c2 s) (td_ab s) (td_st s) (td_cerr s) (td_rerr s) v (td_wac s) (td_connc s) (td_rfail s) (td_wfail s) (td_rdl s) (td_cwl s) (td_cwlo s) (td_rlc s) (td_acc s) (td_abs s) (td_abso s) (td_awake s) (td_lk s) (td_wsa s) (td_tcl s) (td_sdc s) (td_panic s) (td_injd s).
 Definition td_set_wac (v : td_cnt) (s : td_state) : td_state :=
-  mkTd (td_rl s) (td_wl s) (td_tl s) (td_tf s) (td_cw s) (td_rd s) (td_wr s) (td_ac s) (td_sh s) (td_c1 s) (td_c2 s) (td_ab s) (td_st s) (td_cerr s) (td_rerr s) (td_pab s) v (td_connc s) (td_rfail s) (td_wfail s) (td_rdl s) (td_cwl s) (td_cwlo s) (td_rlc s) (td_acc s) (td_abs s) (td_abso s) (td_awake s) (td_lk s) (td_wsa s) (td_tcl s) (td_panic s) (td_injd s).
+  mkTd (td_rl s) (td_wl s) (td_tl s) (td_tf s) (td_cw s) (td_rd s) (td_wr s) (td_ac s) (td_sh s) (td_c1 s) (td_c2 s) (td_ab s) (td_st s) (td_cerr s) (td_rerr s) (td_pab s) v (td_connc s) (td_rfail s) (td_wfail s) (td_rdl s) (td_cwl s) (td_cwlo s) (td_rlc s) (td_acc s) (td_abs s) (td_abso s) (td_awake s) (td_lk s) (td_wsa s) (td_tcl s) (td_sdc s) (td_panic s) (td_injd s).
 Definition td_set_connc (v : bool) (s : td_state) : td_state :=
-  mkTd (td_rl s) (td_wl s) (td_tl s) (td_tf s) (td_cw s) (td_rd s) (td_wr s) (td_ac s) (td_sh s) (td_c1 s) (td_c2 s) (td_ab s) (td_st s) (td_cerr s) (td_rerr s) (td_pab s) (td_wac s) v (td_rfail s) (td_wfail s) (td_rdl s) (td_cwl s) (td_cwlo s) (td_rlc s) (td_acc s) (td_abs s) (td_abso s) (td_awake s) (td_lk s) (td_wsa s) (td_tcl s) (td_panic s) (td_injd s).
+  mkTd (td_rl s) (td_wl s) (td_tl s) (td_tf s) (td_cw s) (td_rd s) (td_wr s) (td_ac s) (td_sh s) (td_c1 s) (td_c2 s) (td_ab s) (td_st s) (td_cerr s) (td_rerr s) (td_pab s) (td_wac s) v (td_rfail s) (td_wfail s) (td_rdl s) (td_cwl s) (td_cwlo s) (td_rlc s) (td_acc s) (td_abs s) (td_abso s) (td_awake s) (td_lk s) (td_wsa s) (td_tcl s) (td_sdc s) (td_panic s) (td_injd s).
 Definition td_set_rfail (v : bool) (s : td_state) : td_state :=
-  mkTd (td_rl s) (td_wl s) (td_tl s) (td_tf s) (td_cw s) (td_rd s) (td_wr s) (td_ac s) (td_sh s) (td_c1 s) (td_c2 s) (td_ab s) (td_st s) (td_cerr s) (td_rerr s) (td_pab s) (td_wac s) (td_connc s) v (td_wfail s) (td_rdl s) (td_cwl s) (td_cwlo s) (td_rlc s) (td_acc s) (td_abs s) (td_abso s) (td_awake s) (td_lk s) (td_wsa s) (td_tcl s) (td_panic s) (td_injd s).
+  mkTd (td_rl s) (td_wl s) (td_tl s) (td_tf s) (td_cw s) (td_rd s) (td_wr s) (td_ac s) (td_sh s) (td_c1 s) (td_c2 s) (td_ab s) (td_st s) (td_cerr s) (td_rerr s) (td_pab s) (td_wac s) (td_connc s) v (td_wfail s) (td_rdl s) (td_cwl s) (td_cwlo s) (td_rlc s) (td_acc s) (td_abs s) (td_abso s) (td_awake s) (td_lk s) (td_wsa s) (td_tcl s) (td_sdc s) (td_panic s) (td_injd s).
 Definition td_set_wfail (v : bool) (s : td_state) : td_state :=
-  mkTd (td_rl s) (td_wl s) (td_tl s) (td_tf s) (td_cw s) (td_rd s) (td_wr s) (td_ac s) (td_sh s) (td_c1 s) (td_c2 s) (td_ab s) (td_st s) (td_cerr s) (td_rerr s) (td_pab s) (td_wac s) (td_connc s) (td_rfail s) v (td_rdl s) (td_cwl s) (td_cwlo s) (td_rlc s) (td_acc s) (td_abs s) (td_abso s) (td_awake s) (td_lk s) (td_wsa s) (td_tcl s) (td_panic s) (td_injd s).
+  mkTd (td_rl s) (td_wl s) (td_tl s) (td_tf s) (td_cw s) (td_rd s) (td_wr s) (td_ac s) (td_sh s) (td_c1 s) (td_c2 s) (td_ab s) (td_st s) (td_cerr s) (td_rerr s) (td_pab s) (td_wac s) (td_connc s) (td_rfail s) v (td_rdl s) (td_cwl s) (td_cwlo s) (td_rlc s) (td_acc s) (td_abs s) (td_abso s) (td_awake s) (td_lk s) (td_wsa s) (td_tcl s) (td_sdc s) (td_panic s) (td_injd s).
 Definition td_set_rdl (v : bool) (s : td_state) : td_state :=
-  mkTd (td_rl s) (td_wl s) (td_tl s) (td_tf s) (td_cw s) (td_rd s) (td_wr s) (td_ac s) (td_sh s) (td_c1 s) (td_c2 s) (td_ab s) (td_st s) (td_cerr s) (td_rerr s) (td_pab s) (td_wac s) (td_connc s) (td_rfail s) (td_wfail s) v (td_cwl s) (td_cwlo s) (td_rlc s) (td_acc s) (td_abs s) (td_abso s) (td_awake s) (td_lk s) (td_wsa s) (td_tcl s) (td_panic s) (td_injd s).
+  mkTd (td_rl s) (td_wl s) (td_tl s) (td_tf s) (td_cw s) (td_rd s) (td_wr s) (td_ac s) (td_sh s) (td_c1 s) (td_c2 s) (td_ab s) (td_st s) (td_cerr s) (td_rerr s) (td_pab s) (td_wac s) (td_connc s) (td_rfail s) (td_wfail s) v (td_cwl s) (td_cwlo s) (td_rlc s) (td_acc s) (td_abs s) (td_abso s) (td_awake s) (td_lk s) (td_wsa s) (td_tcl s) (td_sdc s) (td_panic s) (td_injd s).
 Definition td_set_cwl (v : bool) (s : td_state) : td_state :=
-  mkTd (td_rl s) (td_wl s) (td_tl s) (td_tf s) (td_cw s) (td_rd s) (td_wr s) (td_ac s) (td_sh s) (td_c1 s) (td_c2 s) (td_ab s) (td_st s) (td_cerr s) (td_rerr s) (td_pab s) (td_wac s) (td_connc s) (td_rfail s) (td_wfail s) (td_rdl s) v (td_cwlo s) (td_rlc s) (td_acc s) (td_abs s) (td_abso s) (td_awake s) (td_lk s) (td_wsa s) (td_tcl s) (td_panic s) (td_injd s).
+  mkTd (td_rl s) (td_wl s) (td_tl s) (td_tf s) (td_cw s) (td_rd s) (td_wr s) (td_ac s) (td_sh s) (td_c1 s) (td_c2 s) (td_ab s) (td_st s) (td_cerr s) (td_rerr s) (td_pab s) (td_wac s) (td_connc s) (td_rfail s) (td_wfail s) (td_rdl s) v (td_cwlo s) (td_rlc s) (td_acc s) (td_abs s) (td_abso s) (td_awake s) (td_lk s) (td_wsa s) (td_tcl s) (td_sdc s) (td_panic s) (td_injd s).
 Definition td_set_cwlo (v : bool) (s : td_state) : td_state :=
-  mkTd (td_rl s) (td_wl s) (td_tl s) (td_tf s) (td_cw s) (td_rd s) (td_wr s) (td_ac s) (td_sh s) (td_c1 s) (td_c2 s) (td_ab s) (td_st s) (td_cerr s) (td_rerr s) (td_pab s) (td_wac s) (td_connc s) (td_rfail s) (td_wfail s) (td_rdl s) (td_cwl s) v (td_rlc s) (td_acc s) (td_abs s) (td_abso s) (td_awake s) (td_lk s) (td_wsa s) (td_tcl s) (td_panic s) (td_injd s).
+  mkTd (td_rl s) (td_wl s) (td_tl s) (td_tf s) (td_cw s) (td_rd s) (td_wr s) (td_ac s) (td_sh s) (td_c1 s) (td_c2 s) (td_ab s) (td_st s) (td_cerr s) (td_rerr s) (td_pab s) (td_wac s) (td_connc s) (td_rfail s) (td_wfail s) (td_rdl s) (td_cwl s) v (td_rlc s) (td_acc s) (td_abs s) (td_abso s) (td_awake s) (td_lk s) (td_wsa s) (td_tcl s) (td_sdc s) (td_panic s) (td_injd s).
 Definition td_set_rlc (v : bool) (s : td_state) : td_state :=
-  mkTd (td_rl s) (td_wl s) (td_tl s) (td_tf s) (td_cw s) (td_rd s) (td_wr s) (td_ac s) (td_sh s) (td_c1 s) (td_c2 s) (td_ab s) (td_st s) (td_cerr s) (td_rerr s) (td_pab s) (td_wac s) (td_connc s) (td_rfail s) (td_wfail s) (td_rdl s) (td_cwl s) (td_cwlo s) v (td_acc s) (td_abs s) (td_abso s) (td_awake s) (td_lk s) (td_wsa s) (td_tcl s) (td_panic s) (td_injd s).
+  mkTd (td_rl s) (td_wl s) (td_tl s) (td_tf s) (td_cw s) (td_rd s) (td_wr s) (td_ac s) (td_sh s) (td_c1 s) (td_c2 s) (td_ab s) (td_st s) (td_cerr s) (td_rerr s) (td_pab s) (td_wac s) (td_connc s) (td_rfail s) (td_wfail s) (td_rdl s) (td_cwl s) (td_cwlo s) v (td_acc s) (td_abs s) (td_abso s) (td_awake s) (td_lk s) (td_wsa s) (td_tcl s) (td_sdc s) (td_panic s) (td_injd s).
 Definition td_set_acc (v : bool) (s : td_state) : td_state :=
-  mkTd (td_rl s) (td_wl s) (td_tl s) (td_tf s) (td_cw s) (td_rd s) (td_wr s) (td_ac s) (td_sh s) (td_c1 s) (td_c2 s) (td_ab s) (td_st s) (td_cerr s) (td_rerr s) (td_pab s) (td_wac s) (td_connc s) (td_rfail s) (td_wfail s) (td_rdl s) (td_cwl s) (td_cwlo s) (td_rlc s) v (td_abs s) (td_abso s) (td_awake s) (td_lk s) (td_wsa s) (td_tcl s) (td_panic s) (td_injd s).
+  mkTd (td_rl s) (td_wl s) (td_tl s) (td_tf s) (td_cw s) (td_rd s) (td_wr s) (td_ac s) (td_sh s) (td_c1 s) (td_c2 s) (td_ab s) (td_st s) (td_cerr s) (td_rerr s) (td_pab s) (td_wac s) (td_connc s) (td_rfail s) (td_wfail s) (td_rdl s) (td_cwl s) (td_cwlo s) (td_rlc s) v (td_abs s) (td_abso s) (td_awake s) (td_lk s) (td_wsa s) (td_tcl s) (td_sdc s) (td_panic s) (td_injd s).
 Definition td_set_abs (v : bool) (s : td_state) : td_state :=
-  mkTd (td_rl s) (td_wl s) (td_tl s) (td_tf s) (td_cw s) (td_rd s) (td_wr s) (td_ac s) (td_sh s) (td_c1 s) (td_c2 s) (td_ab s) (td_st s) (td_cerr s) (td_rerr s) (td_pab s) (td_wac s) (td_connc s) (td_rfail s) (td_wfail s) (td_rdl s) (td_cwl s) (td_cwlo s) (td_rlc s) (td_acc s) v (td_abso s) (td_awake s) (td_lk s) (td_wsa s) (td_tcl s) (td_panic s) (td_injd s).
+  mkTd (td_rl s) (td_wl s) (td_tl s) (td_tf s) (td_cw s) (td_rd s) (td_wr s) (td_ac s) (td_sh s) (td_c1 s) (td_c2 s) (td_ab s) (td_st s) (td_cerr s) (td_rerr s) (td_pab s) (td_wac s) (td_connc s) (td_rfail s) (td_wfail s) (td_rdl s) (td_cwl s) (td_cwlo s) (td_rlc s) (td_acc s) v (td_abso s) (td_awake s) (td_lk s) (td_wsa s) (td_tcl s) (td_sdc s) (td_panic s) (td_injd s).
 Definition td_set_abso (v : bool) (s : td_state) : td_state :=
-  mkTd (td_rl s) (td_wl s) (td_tl s) (td_tf s) (td_cw s) (td_rd s) (td_wr s) (td_ac s) (td_sh s) (td_c1 s) (td_c2 s) (td_ab s) (td_st s) (td_cerr s) (td_rerr s) (td_pab s) (td_wac s) (td_connc s) (td_rfail s) (td_wfail s) (td_rdl s) (td_cwl s) (td_cwlo s) (td_rlc s) (td_acc s) (td_abs s) v (td_awake s) (td_lk s) (td_wsa s) (td_tcl s) (td_panic s) (td_injd s).
+  mkTd (td_rl s) (td_wl s) (td_tl s) (td_tf s) (td_cw s) (td_rd s) (td_wr s) (td_ac s) (td_sh s) (td_c1 s) (td_c2 s) (td_ab s) (td_st s) (td_cerr s) (td_rerr s) (td_pab s) (td_wac s) (td_connc s) (td_rfail s) (td_wfail s) (td_rdl s) (td_cwl s) (td_cwlo s) (td_rlc s) (td_acc s) (td_abs s) v (td_awake s) (td_lk s) (td_wsa s) (td_tcl s) (td_sdc s) (td_panic s) (td_injd s).
 Definition td_set_awake (v : bool) (s : td_state) : td_state :=
-  mkTd (td_rl s) (td_wl s) (td_tl s) (td_tf s) (td_cw s) (td_rd s) (td_wr s) (td_ac s) (td_sh s) (td_c1 s) (td_c2 s) (td_ab s) (td_st s) (td_cerr s) (td_rerr s) (td_pab s) (td_wac s) (td_connc s) (td_rfail s) (td_wfail s) (td_rdl s) (td_cwl s) (td_cwlo s) (td_rlc s) (td_acc s) (td_abs s) (td_abso s) v (td_lk s) (td_wsa s) (td_tcl s) (td_panic s) (td_injd s).
+  mkTd (td_rl s) (td_wl s) (td_tl s) (td_tf s) (td_cw s) (td_rd s) (td_wr s) (td_ac s) (td_sh s) (td_c1 s) (td_c2 s) (td_ab s) (td_st s) (td_cerr s) (td_rerr s) (td_pab s) (td_wac s) (td_connc s) (td_rfail s) (td_wfail s) (td_rdl s) (td_cwl s) (td_cwlo s) (td_rlc s) (td_acc s) (td_abs s) (td_abso s) v (td_lk s) (td_wsa s) (td_tcl s) (td_sdc s) (td_panic s) (td_injd s).
 Definition td_set_lk (v : bool) (s : td_state) : td_state :=
-  mkTd (td_rl s) (td_wl s) (td_tl s) (td_tf s) (td_cw s) (td_rd s) (td_wr s) (td_ac s) (td_sh s) (td_c1 s) (td_c2 s) (td_ab s) (td_st s) (td_cerr s) (td_rerr s) (td_pab s) (td_wac s) (td_connc s) (td_rfail s) (td_wfail s) (td_rdl s) (td_cwl s) (td_cwlo s) (td_rlc s) (td_acc s) (td_abs s) (td_abso s) (td_awake s) v (td_wsa s) (td_tcl s) (td_panic s) (td_injd s).
+  mkTd (td_rl s) (td_wl s) (td_tl s) (td_tf s) (td_cw s) (td_rd s) (td_wr s) (td_ac s) (td_sh s) (td_c1 s) (td_c2 s) (td_ab s) (td_st s) (td_cerr s) (td_rerr s) (td_pab s) (td_wac s) (td_connc s) (td_rfail s) (td_wfail s) (td_rdl s) (td_cwl s) (td_cwlo s) (td_rlc s) (td_acc s) (td_abs s) (td_abso s) (td_awake s) v (td_wsa s) (td_tcl s) (td_sdc s) (td_panic s) (td_injd s).
 Definition td_set_wsa (v : bool) (s : td_state) : td_state :=
-  mkTd (td_rl s) (td_wl s) (td_tl s) (td_tf s) (td_cw s) (td_rd s) (td_wr s) (td_ac s) (td_sh s) (td_c1 s) (td_c2 s) (td_ab s) (td_st s) (td_cerr s) (td_rerr s) (td_pab s) (td_wac s) (td_connc s) (td_rfail s) (td_wfail s) (td_rdl s) (td_cwl s) (td_cwlo s) (td_rlc s) (td_acc s) (td_abs s) (td_abso s) (td_awake s) (td_lk s) v (td_tcl s) (td_panic s) (td_injd s).
+  mkTd (td_rl s) (td_wl s) (td_tl s) (td_tf s) (td_cw s) (td_rd s) (td_wr s) (td_ac s) (td_sh s) (td_c1 s) (td_c2 s) (td_ab s) (td_st s) (td_cerr s) (td_rerr s) (td_pab s) (td_wac s) (td_connc s) (td_rfail s) (td_wfail s) (td_rdl s) (td_cwl s) (td_cwlo s) (td_rlc s) (td_acc s) (td_abs s) (td_abso s) (td_awake s) (td_lk s) v (td_tcl s) (td_sdc s) (td_panic s) (td_injd s).
 Definition td_set_tcl (v : bool) (s : td_state) : td_state :=
-  mkTd (td_rl s) (td_wl s) (td_tl s) (td_tf s) (td_cw s) (td_rd s) (td_wr s) (td_ac s) (td_sh s) (td_c1 s) (td_c2 s) (td_ab s) (td_st s) (td_cerr s) (td_rerr s) (td_pab s) (td_wac s) (td_connc s) (td_rfail s) (td_wfail s) (td_rdl s) (td_cwl s) (td_cwlo s) (td_rlc s) (td_acc s) (td_abs s) (td_abso s) (td_awake s) (td_lk s) (td_wsa s) v (td_panic s) (td_injd s).
+  mkTd (td_rl s) (td_wl s) (td_tl s) (td_tf s) (td_cw s) (td_rd s) (td_wr s) (td_ac s) (td_sh s) (td_c1 s) (td_c2 s) (td_ab s) (td_st s) (td_cerr s) (td_rerr s) (td_pab s) (td_wac s) (td_connc s) (td_rfail s) (td_wfail s) (td_rdl s) (td_cwl s) (td_cwlo s) (td_rlc s) (td_acc s) (td_abs s) (td_abso s) (td_awake s) (td_lk s) (td_wsa s) v (td_sdc s) (td_panic s) (td_injd s).
+Definition td_set_sdc (v : bool) (s : td_state) : td_state :=
+  mkTd (td_rl s) (td_wl s) (td_tl s) (td_tf s) (td_cw s) (td_rd s) (td_wr s) (td_ac s) (td_sh s) (td_c1 s) (td_c2 s) (td_ab s) (td_st s) (td_cerr s) (td_rerr s) (td_pab s) (td_wac s) (td_connc s) (td_rfail s) (td_wfail s) (td_rdl s) (td_cwl s) (td_cwlo s) (td_rlc s) (td_acc s) (td_abs s) (td_abso s) (td_awake s) (td_lk s) (td_wsa s) (td_tcl s) v (td_panic s) (td_injd s).
 Definition td_set_panic (v : bool) (s : td_state) : td_state :=
-  mkTd (td_rl s) (td_wl s) (td_tl s) (td_tf s) (td_cw s) (td_rd s) (td_wr s) (td_ac s) (td_sh s) (td_c1 s) (td_c2 s) (td_ab s) (td_st s) (td_cerr s) (td_rerr s) (td_pab s) (td_wac s) (td_connc s) (td_rfail s) (td_wfail s) (td_rdl s) (td_cwl s) (td_cwlo s) (td_rlc s) (td_acc s) (td_abs s) (td_abso s) (td_awake s) (td_lk s) (td_wsa s) (td_tcl s) v (td_injd s).
+  mkTd (td_rl s) (td_wl s) (td_tl s) (td_tf s) (td_cw s) (td_rd s) (td_wr s) (td_ac s) (td_sh s) (td_c1 s) (td_c2 s) (td_ab s) (td_st s) (td_cerr s) (td_rerr s) (td_pab s) (td_wac s) (td_connc s) (td_rfail s) (td_wfail s) (td_rdl s) (td_cwl s) (td_cwlo s) (td_rlc s) (td_acc s) (td_abs s) (td_abso s) (td_awake s) (td_lk s) (td_wsa s) (td_tcl s) (td_sdc s) v (td_injd s).
 Definition td_set_injd (v : bool) (s : td_state) : td_state :=
-  mkTd (td_rl s) (td_wl s) (td_tl s) (td_tf s) (td_cw s) (td_rd s) (td_wr s) (td_ac s) (td_sh s) (td_c1 s) (td_c2 s) (td_ab s) (td_st s) (td_cerr s) (td_rerr s) (td_pab s) (td_wac s) (td_connc s) (td_rfail s) (td_wfail s) (td_rdl s) (td_cwl s) (td_cwlo s) (td_rlc s) (td_acc s) (td_abs s) (td_abso s) (td_awake s) (td_lk s) (td_wsa s) (td_tcl s) (td_panic s) v.
+  mkTd (td_rl s) (td_wl s) (td_tl s) (td_tf s) (td_cw s) (td_rd s) (td_wr s) (td_ac s) (td_sh s) (td_c1 s) (td_c2 s) (td_ab s) (td_st s) (td_cerr s) (td_rerr s) (td_pab s) (td_wac s) (td_connc s) (td_rfail s) (td_wfail s) (td_rdl s) (td_cwl s) (td_cwlo s) (td_rlc s) (td_acc s) (td_abs s) (td_abso s) (td_awake s) (td_lk s) (td_wsa s) (td_tcl s) (td_sdc s) (td_panic s) v.
 
 Definition td_bool_enc (b : bool) (p : positive) : positive := if b then xI p else xO p.
 (* injective key of a state: the fields' fixed-width codes, one after the other *)
@@ -338,10 +351,10 @@ Definition td_enc (s : td_state) : positive :=
   (td_bool_enc (td_lk s)
   (td_bool_enc (td_wsa s)
   (td_bool_enc (td_tcl s)
+  (td_bool_enc (td_sdc s)
   (td_bool_enc (td_panic s)
   (td_bool_enc (td_injd s)
-  (xH))))))))))))))))))))))))))))))))).
-
+  (xH)))))))))))))))))))))))))))))))))).
 (* ------------------------------------------------------------------------------------------
    Shared-state helpers
    ------------------------------------------------------------------------------------------ *)
@@ -443,8 +456,15 @@ Definition td_env (c : td_cfg) (s : td_state) : list td_state :=
       | TdPhEst, TdStEst => [td_unblock_writers (td_set_awake true (td_set_st TdStSd s))]
       | _, _ => []
       end) ++
-     (* SHUTDOWN-COMPLETE in shutdownAckSent: handleShutdownComplete calls a.close() under a.lock *)
-     (match td_st s with TdStSd => [td_set_lk true (td_set_rl TdRlSc0 s)] | _ => [] end)
+     (* SHUTDOWN-ACK in shutdownSent / shutdownAckSent: handleShutdownAck sets willSendShutdownComplete and
+        shutdownCompleted, awakeWriteLoop (the write loop then sends SHUTDOWN-COMPLETE with ok = false) *)
+     (match td_st s with
+      | TdStSd => if td_sdc s then [] else [td_set_awake true (td_set_sdc true s)]
+      | _ => []
+      end) ++
+     (* SHUTDOWN-COMPLETE in shutdownAckSent: handleShutdownComplete sets shutdownCompleted and calls
+        a.close() under a.lock *)
+     (match td_st s with TdStSd => [td_set_lk true (td_set_rl TdRlSc0 (td_set_sdc true s))] | _ => [] end)
    else []).
 
 (* ------------------------------------------------------------------------------------------
@@ -512,8 +532,9 @@ Definition td_write (s : td_state) : list td_state :=
          | TdWrBlocked, TdStEst => [td_set_wl TdWlWr1 (td_set_wr TdWrWoken s)]
          | _, _ => []
          end) ++
-        (* SHUTDOWN-COMPLETE: ok = false *)
-        (match td_st s with TdStSd => [td_set_wl TdWlWrFin s] | _ => [] end)
+        (* SHUTDOWN-COMPLETE (willSendShutdownComplete, set together with shutdownCompleted by a handled
+           SHUTDOWN-ACK): ok = false *)
+        (match td_st s with TdStSd => if td_sdc s then [td_set_wl TdWlWrFin s] else [] | _ => [] end)
   | TdWlWrAbort => td_conn_write true TdWlCl0 s
   | TdWlWr2 => td_conn_write false TdWlWr1 s
   | TdWlWr1 => td_conn_write false TdWlSelect s
@@ -557,7 +578,7 @@ Definition td_t1fail (c : td_cfg) (s : td_state) : list td_state :=
   | TdTfFired => if td_lk s then [] else [td_set_tf TdTfBlocked (td_set_lk true s)]
   | TdTfBlocked =>
       (match td_cw s with
-       | TdCwWait => [td_set_tf TdTfDone (td_set_lk false (td_set_cw TdCwHsErr s))]
+       | TdCwWait => [td_set_tf TdTfDone (td_set_lk false (td_set_cw TdCwErrCl0 s))]
        | _ => []
        end) ++
       (if td_cwl s || td_rlc s then [td_set_tf TdTfDone (td_set_lk false s)] else [])
@@ -568,9 +589,19 @@ Definition td_t1fail (c : td_cfg) (s : td_state) : list td_state :=
    blocked callers
    ------------------------------------------------------------------------------------------ *)
 
-(* Client/Server: select { <-handshakeCompletedCh | <-readLoopCloseCh } (the send side is in td_read / td_t1fail) *)
+(* Client/Server: select { <-handshakeCompletedCh | <-readLoopCloseCh } (the send side is in td_read /
+   td_t1fail); when the handshake result is an error: assoc.Close() (a.close(), <-readLoopCloseCh), then
+   return the error *)
 Definition td_connect (s : td_state) : list td_state :=
-  match td_cw s with TdCwWait => if td_rlc s then [td_set_cw TdCwClosed s] else [] | _ => [] end.
+  match td_cw s with
+  | TdCwWait => if td_rlc s then [td_set_cw TdCwClosed s] else []
+  | TdCwErrCl0 => [td_set_cw TdCwErrCl1 (td_close_eff TdCl0 s)]
+  | TdCwErrCl1 => [td_set_cw TdCwErrCl2 (td_close_eff TdCl1 s)]
+  | TdCwErrCl2 => [td_set_cw TdCwErrCl3 (td_close_eff TdCl2 s)]
+  | TdCwErrCl3 => [td_set_cw TdCwErrWait (td_close_eff TdCl3 s)]
+  | TdCwErrWait => if td_rlc s then [td_set_cw TdCwHsErr s] else []
+  | _ => []
+  end.
 
 (* ReadSCTP: for { if readErr != nil return; readNotifier.Wait() } (no data in the queue) *)
 Definition td_reader (s : td_state) : list td_state :=
@@ -597,9 +628,14 @@ Definition td_writer (s : td_state) : list td_state :=
 Definition td_acceptor (s : td_state) : list td_state :=
   match td_ac s with TdAcWait => if td_acc s then [td_set_ac TdAcEof s] else [] | _ => [] end.
 
-(* Shutdown(ctx): select { <-closeWriteLoopCh } (ctx never done) *)
+(* Shutdown(ctx): select { <-closeWriteLoopCh } (ctx never done); then RLock, read shutdownCompleted,
+   RUnlock: nil if the shutdown sequence ran to its end, ErrShutdownIncomplete otherwise *)
 Definition td_shutdown (s : td_state) : list td_state :=
-  match td_sh s with TdShWait => if td_cwl s then [td_set_sh TdShNil s] else [] | _ => [] end.
+  match td_sh s with
+  | TdShWait => if td_cwl s then [td_set_sh TdShWoken s] else []
+  | TdShWoken => if td_lk s then [] else [td_set_sh (if td_sdc s then TdShNil else TdShErr) s]
+  | _ => []
+  end.
 
 (* Close(): a.close(); <-a.readLoopCloseCh *)
 Definition td_close_caller (get : td_state -> td_ccpc) (set : td_ccpc -> td_state -> td_state) (s : td_state)
@@ -661,7 +697,7 @@ Definition td_init (c : td_cfg) : td_state :=
   (* Shutdown() blocks only if it found the association established; it left it in shutdownPending/Sent *)
   let sh := match td_c_mix c, td_c_phase c with TdMixShutdown, TdPhSd => TdShWait | _, _ => TdShNone end in
   mkTd TdRlRead TdWlGather false TdTfIdle cw rd wr ac sh TdCcNone TdCcNone TdAbNone st TdCeNone TdCeNone TdCeNone TdCnt0
-       false false false false false false false false false false false false false false false false.
+       false false false false false false false false false false false false false false false false false.
 
 (* ------------------------------------------------------------------------------------------
    State predicates
@@ -673,11 +709,11 @@ Definition td_done (s : td_state) : bool :=
   (match td_wl s with TdWlDone => true | _ => false end) &&
   td_tl s && td_tcl s && negb (td_lk s) &&
   (match td_tf s with TdTfIdle | TdTfDone => true | _ => false end) &&
-  (match td_cw s with TdCwWait => false | _ => true end) &&
+  (match td_cw s with TdCwNone | TdCwOk | TdCwHsErr | TdCwClosed => true | _ => false end) &&
   (match td_rd s with TdRdParked | TdRdCheck => false | _ => true end) &&
   (match td_wr s with TdWrBlocked | TdWrWoken => false | _ => true end) &&
   (match td_ac s with TdAcWait => false | _ => true end) &&
-  (match td_sh s with TdShWait => false | _ => true end) &&
+  (match td_sh s with TdShWait | TdShWoken => false | _ => true end) &&
   (match td_c1 s with TdCcNone | TdCcRet => true | _ => false end) &&
   (match td_c2 s with TdCcNone | TdCcRet => true | _ => false end) &&
   (match td_ab s with TdAbNone | TdAbRet => true | _ => false end).
@@ -836,8 +872,13 @@ Definition td_chk_close2 (s : td_state) : bool :=
   | _, _ => true
   end.
 
+(* (f) Shutdown returns nil only if the shutdown sequence ran to its end (shutdownCompleted), and
+   ErrShutdownIncomplete only if it did not *)
+Definition td_chk_shut (s : td_state) : bool :=
+  match td_sh s with TdShNil => td_sdc s | TdShErr => negb (td_sdc s) | _ => true end.
+
 Definition td_chk_state (c : td_cfg) (s : td_state) : bool :=
-  td_chk_dead c s && td_chk_wac s && td_chk_chan s && td_chk_abort s && td_chk_close2 s.
+  td_chk_dead c s && td_chk_wac s && td_chk_chan s && td_chk_abort s && td_chk_close2 s && td_chk_shut s.
 
 (* one family: reachable set computed and closed; every member passes the per-state checks (safety);
    every member has a rank certificate (progress) *)
@@ -890,8 +931,9 @@ Definition td_families_t1 : list td_cfg := map (fun i => mkTdCfg TdPhHs i TdMixN
    Outcome table for the comparison with the implementation
    ------------------------------------------------------------------------------------------ *)
 
-Definition td_outcome := (td_err * td_cwpc * td_rdpc * td_wrpc * td_acpc * td_shpc)%type.
-Definition td_outcome_of (s : td_state) : td_outcome := (td_pab s, td_cw s, td_rd s, td_wr s, td_ac s, td_sh s).
+Definition td_outcome := (td_err * td_cwpc * td_rdpc * td_wrpc * td_acpc * td_shpc * bool)%type.
+Definition td_outcome_of (s : td_state) : td_outcome :=
+  (td_pab s, td_cw s, td_rd s, td_wr s, td_ac s, td_sh s, td_sdc s).
 
 (* outcomes of the blocked callers in the final states (no step enabled) of a family *)
 Definition td_final_outcomes (c : td_cfg) : list td_outcome :=
